@@ -77,13 +77,21 @@ def api_surface(rep, rng, tier):
                 rep.violation(f"{what} returns vertices aliasing the original", case)
         # ---- resample: vertices stay on the original outline (linear interpolation), requested count, same region
         for k in (None, 17, 40, 90):
-            Rz = A.resample(k)
+            try:
+                Rz = A.resample(k)
+            except ValueError:          # the package refuses to build an invalid polygon: allowed
+                rep.coverage["api_refused"] = rep.coverage.get("api_refused", 0) + 1
+                continue
             stored_ok(Rz, f"resample({k})")
         # ---- buffer (only what the property states: stored form, no aliasing; whether a positive distance inflates is not
         # part of it - with shapely 2 and the default single_sided=True it does not)
         size = float(np.max(A.points.max(axis=0) - A.points.min(axis=0)))
         for dist in (0.05 * size, -0.05 * size):
-            Bf = A.buffer(dist)
+            try:
+                Bf = A.buffer(dist)
+            except ValueError:
+                rep.coverage["api_refused"] = rep.coverage.get("api_refused", 0) + 1
+                continue
             stored_ok(Bf, f"buffer({dist:.3g})")
         # ---- contains_points: index form, radius margin
         P, _ = probes(rng, [A], 60)
